@@ -28,8 +28,10 @@ fn space_for(tier: Tier) -> (Space, usize) {
     match tier {
         Tier::Quick => {
             s.ast("CI", 4, 32);
+            s.ast_range("CI2", 1, 4, 32, 3).ast_range("CI2A", 1, 4, 32, 3);
             s.list("letters", N_PAIRS_HINT, 8);
             s.list("related", 0x110000 / RELATED_BLOCK, 1);
+            s.list("flag strings", 1, 1);
             (s, 2)
         }
         Tier::Thorough => {
@@ -37,8 +39,10 @@ fn space_for(tier: Tier) -> (Space, usize) {
             // one more level, restricted to patterns without a quantifier over a
             // possibly-empty body (the greedy-repeat defect D17 is owned by C01)
             s.ast_range("CI", 5, 5, 32, 1);
+            s.ast_range("CI2", 1, 5, 32, 4).ast_range("CI2A", 1, 5, 32, 4);
             s.list("letters", N_PAIRS_HINT, 8);
             s.list("related", 0x110000 / RELATED_BLOCK, 1);
+            s.list("flag strings", 1, 1);
             (s, 3)
         }
     }
@@ -172,6 +176,11 @@ impl Check for C11 {
         let (sp, maxlen) = space_for(ctx.tier);
         let (seg, lo, hi) = sp.locate(chunk);
         let scope_name = space::seg_scope_name(seg);
+        if let SegKind::List { name: "flag strings" } = seg.kind {
+            let n = common::flag_effect(out, "C11", 'i');
+            out.sample(J::obj(vec![("flag_strings_probed", J::i(n as usize))]));
+            return;
+        }
         if let SegKind::List { name: "related" } = seg.kind {
             for i in lo..hi {
                 self.related_block(out, &scope_name, (i * RELATED_BLOCK) as u32, ((i + 1) * RELATED_BLOCK) as u32);
@@ -272,7 +281,8 @@ impl Check for C11 {
             SegKind::Ast { scope, .. } => crate::gen::scope(scope).sigma,
             _ => unreachable!(),
         };
-        let inputs = all_strings(&sigma, maxlen);
+        // layer parameter: 1 = restricted layer; >= 2 = input-length bound of a restricted layer
+        let inputs = all_strings(&sigma, if seg.param >= 2 { seg.param } else { maxlen });
         let restricted = seg.param > 0;
         space::for_each_text(seg, lo, hi, &mut |_i, text| {
             if restricted {
@@ -327,6 +337,11 @@ impl C11 {
                         (format!("^(.)\\1$"), "i", format!("{}{}", p, i), true),
                         (format!("^{}+1$", p), "i", format!("{}{}1", i, p), true),
                         (format!("^1*{}$", p), "i", format!("11{}", i), true),
+                        // unanchored: the literal-prefix scan and the first-character filter
+                        (format!("{}", p), "i", format!("x{}", i), true),
+                        (format!("{}1", p), "i", format!("xx{}{}1", p, i), true),
+                        (format!("1{}", p), "i", format!("1x1{}", i), true),
+                        (format!("[{}]1", p), "i", format!("x1{}1", i), true),
                     ];
                     for (pat, flags, inp, want) in cases {
                         out.inc("states");
